@@ -51,7 +51,8 @@ type BranchSpec struct {
 	Parent int `json:"parent"`
 	At     int `json:"at"`
 	Len    int `json:"len"`
-	// Pace: 0 fast (difficulty rises), 1 on target, 2 slow, 3 jittery.
+	// Pace: 0 fast (difficulty rises), 1 on target, 2 slow, 3 jittery,
+	// 4 bursty clocks (strongly non-monotonic timestamps).
 	Pace int `json:"pace"`
 }
 
@@ -323,6 +324,7 @@ func (w *World) plan(parent *Node, n int, pace int, rng *rand.Rand, start int64,
 	R := int32(w.Spec.P.Retarget)
 	times := make([]int64, 0, n)
 	bits := make([]uint32, 0, n)
+	burstLeft, calmLeft := 0, 0
 	for i := 0; i < n; i++ {
 		h := ph + int32(i) + 1
 		pt, _ := anc(h - 1)
@@ -335,6 +337,23 @@ func (w *World) plan(parent *Node, n int, pace int, rng *rand.Rand, start int64,
 			d = sp/2 + rng.Int64N(sp+1)
 		case 2:
 			d = 2*sp + 1 + rng.Int64N(3*sp)
+		case 4:
+			// bursty clocks: mostly the lowest admissible timestamp,
+			// now and then a miner whose clock runs far ahead
+			// (runs of 4-7 far-ahead clocks, then 2-12 blocks at the
+			// floor), which makes the 11-block median sit well above
+			// the most recent timestamps.
+			if burstLeft == 0 && calmLeft == 0 {
+				burstLeft = 4 + rng.IntN(4)
+				calmLeft = 2 + rng.IntN(11)
+			}
+			if burstLeft > 0 {
+				burstLeft--
+				d = mtp + sp + rng.Int64N(40*sp) - pt
+			} else {
+				calmLeft--
+				d = mtp + 1 + rng.Int64N(3) - pt
+			}
 		default:
 			d = -sp/2 + rng.Int64N(3*sp)
 		}
